@@ -32,12 +32,13 @@ THEOREMS = [
     'CC.C07_harmonic_sound', 'CC.C07_harmonic_complete', 'CC.C07_harmonic_index',
     'CC.C07_faithful_nonperiodic', 'CC.C07_harmonic', 'CC.C07_faithful',
     'CC.C07_ground', 'CC.C07_limits_dc', 'CC.C07_limits_zero_resistance',
+    'CC.C07_limits_open_switch', 'CC.C07_open_switch_record', 'CC.C07_open_switch_network',
 ]
 OPEN_STATEMENTS = []
 ASSUMPTIONS = [
     'np.cos / np.sin are parameters of the model (trig : Rat → Rat × Rat); the harness passes numpy\'s own values',
     'the harmonic coefficients amplitude(n), phase(n) of periodic_functions.py are parameters (property C08); the harness passes the repo\'s own values',
-    'reals are modelled as rationals: R = inf (open switch) is outside the model and is exercised on the implementation only',
+    'reals are modelled as rationals plus the single extended value inf (Val.inf); only resistor(R = inf), the open switch, is given a meaning: its record NortenElement(Z=inf, V=0) is represented by the open-circuit record (Y=0, I=0), which has the same derived values and predicates; other uses of inf are outside the model',
     'the interpreter CC/Model/Circuit.lean (meaning of the generated syntax) is tied to the code by the cc_transform correspondence only',
     'when one component carries several faults at once the model may report a different one of them than Python does',
 ]
@@ -398,13 +399,23 @@ def check_limits(ctx, out):
     from CircuitCalculator.Circuit import components as ccp, transformers as tr
     from CircuitCalculator.Network import elements as elm
     out.evaluations += 1
+    # open switch R = inf: the predicates the solver uses (implementation side) …
     b = tr.transformers['resistor'](ccp.resistor('S', ('1', '0'), R=math.inf), 0.0, 1e-3)
     e = b.element
-    if not (e.Y == 0 and elm.is_ideal_current_source(e) and not elm.is_active(e) and (b.node1, b.node2, b.id) == ('1', '0', 'S')):
+    if not (e.Y == 0 and e.I == 0 and elm.is_ideal_current_source(e) and elm.is_open_circuit(e) and not elm.is_active(e)
+            and not elm.is_ideal_voltage_source(e) and not elm.is_current_source(e) and (b.node1, b.node2, b.id) == ('1', '0', 'S')):
         out.spec_fail(canon_of('resistor', 'wrong_record', field='open_switch'), 'R = inf is not an open circuit', 'resistor R=inf',
                       impl=repr(e))
     else:
         out.count('limit:open_switch')
+    # … and model / Spec correspondence with the switch at every position of a list, at several frequencies
+    sw = dict(fn='resistor', id='Sw', nodes=['a', 'b'], args=dict(R=math.inf))
+    rng = ctx.rng('open_switch')
+    fill = others(rng, 3)
+    for pos in range(4):
+        descs = fill[:pos] + [sw] + fill[pos:] + [dict(fn='ground', id='gnd', nodes=['a'], args={})]
+        for w in (0.0, 1.0, 64.0):
+            check_case(ctx, out, descs, w, 1e-3, 'limits', tested='Sw')
     for descs, w in (([dict(fn='inductance', id='L', nodes=['1', '0'], args=dict(L=2.0))], 0.0),
                      ([dict(fn='capacitor', id='C', nodes=['1', '0'], args=dict(C=2.0))], 0.0),
                      ([dict(fn='resistor', id='R', nodes=['1', '0'], args=dict(R=0.0))], 1.0),
